@@ -5,6 +5,12 @@ import json
 BASELINE = "cd /repo && go test -mod=mod -json -vet=off -count=1 -timeout 25m ./..."
 
 CHECKS = {
+ "C10": dict(
+  engine="E3 product enumerator + overlay driver",
+  technique="exhaustive enumeration of generated progressive files x every crop duration in ms, tool's own cropMP4 run in-process, output re-parsed by an independent box walker and table expansion",
+  text="Every generated file (all chunkings x sync subsets x duration tuples x table variants; video+audio with every chunk merge order and two audio timescales) is cropped by the tool's unexported cropMP4 (overlay-injected test driver, /repo untouched) at every millisecond from 1 to total+2; each successful output is parsed by the independent walker/expansion and compared sample by sample (bytes, duration, cto, sync, sdtp, size), mdat tiling, chunk offsets and header durations.",
+  note="Only successful crops are judged (errors and panics of the tool are tallied in outcomes). Tracks have at most 5/6 samples; flag parsing of the command line is not exercised. The end time is computed exactly from the input tables.",
+  design="3 C10"),
  "C08": dict(
   engine="E3 product enumerator",
   technique="exhaustive enumeration of generated files x all byte ranges x all sample intervals x work-buffer sizes, differential lazy vs in-memory vs file bytes",
